@@ -493,6 +493,8 @@ def coq_ctype(c):
 def coq_code(c):
     if c in CODES:
         return "(Code %s)" % c[4:]
+    if c in ("nullptr", "NULL", "0"):
+        return "NullPtr"
     return "(CodeUnknown %s)" % coq_str(str(c))
 
 
@@ -529,9 +531,10 @@ def write_coq(facts, path):
     for e in sorted(facts["entries"], key=lambda e: e["name"]):
         cid = chain_id(e["chain"])
         calls = "[]" if e["has_try"] else "[%s]" % "; ".join(coq_str(c) for c in e["calls"])
-        ent_lines.append("  mkEntry %s %d %s %s %s %s" % (coq_str(e["name"]), files.index(e["file"]),
-                                                        "true" if e["has_try"] else "false", cid, calls,
-                                                        "true" if e["body_returns"] else "false"))
+        ent_lines.append("  mkEntry %s %d %s %s %s %s %s" % (coq_str(e["name"]), files.index(e["file"]),
+                                                           "true" if e["has_try"] else "false", cid, calls,
+                                                           "true" if e["body_returns"] else "false",
+                                                           "true" if "*" in e["ret_type"] else "false"))
     for key, (cid, ch) in chains.items():
         lines.append("Definition %s : chain := [\n  %s]." % (cid, ";\n  ".join(coq_clause(h) for h in ch)))
     lines.append("")
